@@ -522,6 +522,11 @@ def c17_s(draw, pid, tier, opts=None):
             steps, kinds = [[s1, rules], [s2, rules]], ["del_svc_full_table", "add_svc_full_table"]
     mk = lambda s, r: {"modules": ["iauth_class", "iauth_xquery"], "services": s, "rules": r, "timeout": 0, "logs": [["*.>=info", "file:iauthd.log"]]}
     confs = [mk(services, rules)] + [mk(s, r) for s, r in steps]
+    if draw(st.integers(0, 5)) == 0:
+        # the new file also spells the (same) set of modules differently: another order, or a module named twice
+        for c_ in confs[draw(st.integers(1, len(confs) - 1)):]:
+            c_["modules"] = draw(st.sampled_from([["iauth_xquery", "iauth_class"], ["iauth_class", "iauth_xquery", "iauth_class"], ["iauth_xquery", "iauth_class", "iauth"]]))
+        kinds = kinds + ["modules_list_respelled"]
     # traffic before the reload: clients that may leave queries outstanding
     pre = []
     if not full and draw(st.booleans()):
